@@ -23,26 +23,21 @@ theorem ofTy_max (wa wb : IW) :
     = some (DT.ofTy (.int (wa.max wb))) := by
   cases wa <;> cases wb <;> decide
 
-theorem arith_ty (op : ArithOp) (ca cb c : Col) (h : Col.arith op ca cb = .ok c) :
-    ∃ wa wb, ca.ty = .int wa ∧ cb.ty = .int wb ∧ c.ty = .int (wa.max wb) := by
-  cases ca <;> cases cb <;> simp [Col.arith] at h
-  rename_i wa a wb b
-  refine ⟨wa, wb, rfl, rfl, ?_⟩
-  cases hk : arithK op (wa.max wb) a b <;> simp [hk, KOut.map] at h
-  subst h; rfl
-
-theorem cmp_ty (op : CmpOp) (ca cb c : Col) (h : Col.cmp op ca cb = .ok c) :
-    c.ty = .bool ∧ ((∃ wa wb, ca.ty = .int wa ∧ cb.ty = .int wb) ∨ (ca.ty = cb.ty ∧ ca.ty ≠ .null)) := by
-  cases ca <;> cases cb <;> simp [Col.cmp] at h
+theorem cmp_ty (op : CmpOp) (ca cb c : Col) (h : Col.cmp op ca cb = .ok c) : c.ty = .bool := by
+  cases ca <;> cases cb <;> simp only [Col.cmp] at h <;>
+    first
+    | (cases h; rfl)
+    | cases h
+    | skip
   · rename_i a b
     cases hk : cmpK (fun x y => op.onOrd (boolOrd x y)) a b <;> simp [hk, KOut.map] at h
-    subst h; exact ⟨rfl, Or.inr ⟨rfl, by simp [Col.ty]⟩⟩
+    subst h; rfl
   · rename_i wa a wb b
     cases hk : cmpK op.onInt a b <;> simp [hk, KOut.map] at h
-    subst h; exact ⟨rfl, Or.inl ⟨wa, wb, rfl, rfl⟩⟩
+    subst h; rfl
   · rename_i a b
     cases hk : cmpK (fun x y => op.onOrd (strOrd x y)) a b <;> simp [hk, KOut.map] at h
-    subst h; exact ⟨rfl, Or.inr ⟨rfl, by simp [Col.ty]⟩⟩
+    subst h; rfl
 
 theorem cast_ty (t : Ty) (ca c : Col) (h : Col.cast t ca = .ok c) : c.ty = t := by
   cases ca with
@@ -109,14 +104,22 @@ theorem type_soundness (chunk : List Col) (n : Nat) (e : KExpr) :
           | some Tb =>
             have ea := iha Ta ca hta (by rw [ha])
             have eb := ihb Tb cb htb (by rw [hb])
-            obtain ⟨wa, wb, h1, h2, h3⟩ := arith_ty op ca cb c hE
-            rw [h1] at ea; rw [h2] at eb
-            subst ea; subst eb
             rw [hta, htb] at hT
-            have := ofTy_max wa wb
-            simp only at this hT
-            rw [this] at hT
-            rw [h3]; exact (Option.some.inj hT)
+            rcases arith_inv op ca cb c hE with ⟨wa, x, wb, y, r, rfl, rfl, _, rfl⟩ | ⟨k, rfl, rfl⟩ |
+              ⟨k, rfl, rfl⟩
+            · simp only [Col.ty] at ea eb
+              subst ea; subst eb
+              have := ofTy_max wa wb
+              simp only at this hT
+              rw [this] at hT
+              exact (Option.some.inj hT)
+            · -- left operand of type NULL: `analyze_type` says NULL
+              simp only [Col.ty, DT.ofTy] at ea ⊢
+              subst ea
+              cases Tb <;> simp [DT.rank] at hT <;> exact hT
+            · simp only [Col.ty, DT.ofTy] at eb ⊢
+              subst eb
+              cases Ta <;> simp [DT.rank, DT.isNumber] at hT <;> exact hT
       | err => simp at hE
       | panic => simp at hE
     | err => simp at hE
@@ -134,7 +137,7 @@ theorem type_soundness (chunk : List Col) (n : Nat) (e : KExpr) :
       cases rb with
       | ok cb =>
         simp only at hE
-        obtain ⟨h1, _⟩ := cmp_ty op ca cb c hE
+        have h1 := cmp_ty op ca cb c hE
         cases hta : typeOf (toT (chunk.map Col.ty) a) with
         | none => simp [hta] at hT
         | some Ta =>
@@ -164,10 +167,8 @@ theorem type_soundness (chunk : List Col) (n : Nat) (e : KExpr) :
       | ok cb =>
         simp only at hE
         have hc : c.ty = .bool := by
-          cases ca <;> cases cb <;> simp [Col.and] at hE
-          rename_i x y
-          cases hk : andK x y <;> simp [hk, KOut.map] at hE
-          subst hE; rfl
+          obtain ⟨_, _, _, _, _, _, rfl⟩ := and_inv ca cb c hE
+          rfl
         cases hta : typeOf (toT (chunk.map Col.ty) a) with
         | none => simp [hta] at hT
         | some Ta =>
@@ -197,10 +198,8 @@ theorem type_soundness (chunk : List Col) (n : Nat) (e : KExpr) :
       | ok cb =>
         simp only at hE
         have hc : c.ty = .bool := by
-          cases ca <;> cases cb <;> simp [Col.or] at hE
-          rename_i x y
-          cases hk : orK x y <;> simp [hk, KOut.map] at hE
-          subst hE; rfl
+          obtain ⟨_, _, _, _, _, _, rfl⟩ := or_inv ca cb c hE
+          rfl
         cases hta : typeOf (toT (chunk.map Col.ty) a) with
         | none => simp [hta] at hT
         | some Ta =>
@@ -261,7 +260,7 @@ theorem type_soundness (chunk : List Col) (n : Nat) (e : KExpr) :
               simp only [Col.neg] at hE
               cases hk : tryUnaryOp 0 (negW w) x <;> simp only [hk] at hE <;> cases hE
               rfl
-            | null k => simp [Col.neg] at hE
+            | null k => simp [Col.neg] at hE; subst hE; rfl
             | bool x => simp [Col.neg] at hE
             | str x => simp [Col.neg] at hE
           rw [this]; exact ea
@@ -315,7 +314,7 @@ theorem type_soundness (chunk : List Col) (n : Nat) (e : KExpr) :
                   have : c.ty = ct.ty := by
                     obtain ⟨s, _, h2⟩ := select_inv cc ct ce c hE
                     rcases h2 with ⟨w, x, y, r, rfl, _, _, rfl⟩ | ⟨x, y, r, rfl, _, _, rfl⟩ |
-                      ⟨x, y, r, rfl, _, _, rfl⟩ <;> rfl
+                      ⟨x, y, r, rfl, _, _, rfl⟩ | ⟨k, k', rfl, _, rfl⟩ <;> rfl
                   rw [this]; exact et
                 · cases hT
         | err => simp at hE
